@@ -83,7 +83,8 @@ def _case(draw):
                                  st.sampled_from([1, 2, 3, 4, 5, -1, -2, -3, -4, -5])), max_size=6))
     return {"spec": spec, "chunk": chunk, "threads": draw(st.sampled_from([1, 1, 2])), "content_seed": draw(st.integers(0, 2 ** 31)),
             "content_mode": draw(st.sampled_from(["full", "smooth", "ramp"])), "ops": ops, "slices": [list(s) for s in sl],
-            "start": draw(st.sampled_from(["bin", "bin", "cbin", "both"]))}
+            "start": draw(st.sampled_from(["bin", "bin", "cbin", "both"])),
+            "run": draw(st.sampled_from(["run", "run", "run", "run", "mouse[7]", "my run (2)", "m1.d2", "x*y"]))}
 
 
 def strategy(tier):
@@ -124,7 +125,13 @@ class World:
             self.bin = self.d / "flat.ap.bin"
             self.bin.write_bytes(self.bytes)
         else:
-            self.bin = rec.write_recording(self.d, spec, self.D)
+            # run names are the experimenter's: brackets, blanks, parentheses and dots are legal in file names (and special to
+            # glob / regular expressions)
+            run = case.get("run") or "run"
+            stream = "nidq" if spec["gen"] == "nidq" else f"imec0.{spec.get('stream', 'ap')}"
+            if run != "run":
+                ctx.label("run_name_special_characters")
+            self.bin = rec.write_recording(self.d, spec, self.D, stem=f"{run}_g0_t0.{stream}")
         self.cbin = self.bin.with_suffix(".cbin")
         self.ch = self.bin.with_suffix(".ch")
         self.meta = self.bin.with_suffix(".meta")
